@@ -333,7 +333,7 @@ theorem lookup_order_independent (l1 l2 : List (Str × Str)) (hp : l1.Perm l2) (
 /-- the quoting state machine of TrimmedCSVSeq on one list element: `none` = an unquoted comma was met -/
 def qscan (q : Bool × Bool) (c : Char) : Option (Bool × Bool) :=
   if q.2 then some (q.1, false)
-  else if c = '\\' then some (q.1, true)
+  else if c = '\\' && q.1 then some (q.1, true)
   else if c = '"' then some (!q.1, false)
   else if c = ',' && !q.1 then none
   else some (q.1, false)
@@ -345,7 +345,7 @@ def qscanAll : Bool × Bool → Str → Option (Bool × Bool)
     | some q' => qscanAll q' r
 
 /-- a list element in the sense of RFC 9110 §5.6.1: every quoted-string in it is closed, no quoted-pair
-    is cut off, and commas occur only inside quoted-strings (or escaped) -/
+    is cut off, and commas occur only inside quoted-strings (a backslash escapes only inside one) -/
 def closedElem (e : Str) : Bool := qscanAll (false, false) e = some (false, false)
 
 theorem csvRun_closed : ∀ (e : Str) (q q' : Bool × Bool), qscanAll q e = some q' →
@@ -372,10 +372,10 @@ theorem csvRun_closed : ∀ (e : Str) (q q' : Bool × Bool), qscanAll q e = some
         by_cases h1 : q.2 = true
         · simp only [h1, ↓reduceIte, Option.some.injEq] at hs ⊢; subst hs; rfl
         · simp only [h1, Bool.false_eq_true, ↓reduceIte] at hs ⊢
-          by_cases h2 : c = '\\'
+          by_cases h2 : (decide (c = '\\') && q.1) = true
           · simp only [h2, ↓reduceIte, Option.some.injEq] at hs ⊢; subst hs
             cases st; simp_all
-          · simp only [h2, ↓reduceIte] at hs ⊢
+          · simp only [h2, Bool.false_eq_true, ↓reduceIte] at hs ⊢
             by_cases h3 : c = '"'
             · simp only [h3, ↓reduceIte, Option.some.injEq] at hs ⊢; subst hs
               cases st; simp_all
